@@ -72,15 +72,24 @@ func c13Run(u *vfUnit) {
 	var fmu sync.Mutex
 	failing := map[int64]bool{}
 	failPath := ""
+	partial := false // when set, a failing read delivers part of the chunk together with its error
 	store.FailAt = func(path string, off int64, n int, write bool) error {
 		fmu.Lock()
 		defer fmu.Unlock()
-		if path == failPath && failing[off] {
+		if path == failPath && failing[off] && !(partial && !write) {
 			return fmt.Errorf("fail@%d", off)
 		}
 		return nil
 	}
-	sc := vfSrvCfg{Kind: vfRS, Alloc: i%3 == 0, H: store.Handlers(vfHandlerOpt{OpenFile: true})}
+	store.PartialAt = func(path string, off int64, n int) (int, error) {
+		fmu.Lock()
+		defer fmu.Unlock()
+		if partial && path == failPath && failing[off] {
+			return n / 2, fmt.Errorf("fail@%d", off)
+		}
+		return 0, nil
+	}
+	sc := vfSrvCfg{Kind: vfRS, Alloc: i%3 == 0, H: store.Handlers(vfHandlerOpt{OpenFile: i%2 == 0})}
 	sess, px, err := vfConnectProxied(sc, 2+r.Intn(10), r.Fork(), MaxPacketUnchecked(P), MaxConcurrentRequestsPerFile(C), UseConcurrentReads(conc), UseConcurrentWrites(conc))
 	if err != nil {
 		u.Inconclusive("connect: %v", err)
@@ -135,6 +144,10 @@ func c13Run(u *vfUnit) {
 			delete(failing, k)
 		}
 		failPath = path
+		partial = !isWrite && ci%3 == 1 && P > 1
+		if partial {
+			u.Count("partial_read_failures", 1)
+		}
 		minFail := int64(-1)
 		for _, k := range fc.idx {
 			off := int64(O + k*P)
@@ -150,7 +163,16 @@ func c13Run(u *vfUnit) {
 		w := map[string]any{"case": label, "unit": u.Index, "case_index": ci}
 		viol := func(key, what string) { u.Violation(key+":"+api, label+": "+what, w) }
 		before := px.Stats()
-		f, err := sess.C.OpenFile(path, os.O_RDWR)
+		oflags := os.O_RDWR
+		if i%2 == 1 {
+			// no OpenFileWriter: the request server offers read-only or write-only handles
+			if isWrite {
+				oflags = os.O_WRONLY
+			} else {
+				oflags = os.O_RDONLY
+			}
+		}
+		f, err := sess.C.OpenFile(path, oflags)
 		if err != nil {
 			viol("open-failed", err.Error())
 			continue
